@@ -597,9 +597,13 @@ def engine_oracle(ctx, exe, nmodels, per_field):
                     # (act is examined by no check -- recorded finding; an engine error is one more consequence of it)
                     # recorded findings (narrow): act and the mocap pose are examined by no check; RK4 evaluates its later
                     # stages without a check (huge finite applied force).  Anything else is a violation.
-                    known_way = f in ("act", "mocap_pos", "mocap_quat") or (
-                        f in ("qfrc_applied", "xfrc_applied") and mdl.options["integrator"] == "RK4" and v in ("1e11", "-1e11"))
-                    fail("c30:engine-error" + (":" + f if known_way else ""),
+                    if f in ("act", "mocap_pos", "mocap_quat"):
+                        ekey = ":unchecked-input"
+                    elif f in ("qfrc_applied", "xfrc_applied") and mdl.options["integrator"] == "RK4" and v in ("1e11", "-1e11"):
+                        ekey = ":rk4-later-stage"
+                    else:
+                        ekey = ""
+                    fail("c30:engine-error" + ekey,
                          "mj_step raised an engine error after injecting %s into %s[%d] (integrator %s): %s"
                          % (v, f, i, mdl.options["integrator"], res[("step", ci)][:200]),
                          dict(replay_base, inject={"field": f, "index": i, "value": v},
@@ -632,7 +636,12 @@ def engine_oracle(ctx, exe, nmodels, per_field):
                             narrow = integ in ("implicit", "implicitfast") and spatial_tendon
                         else:
                             narrow = True          # act: never scanned by mj_check*; qpos / qvel: no recorded finding
-                        fail("c30:nonfinite-after-step:" + f + ("" if narrow else ":other-mechanism"),
+                        fkey = "mocap" if (narrow and f in ("mocap_pos", "mocap_quat")) else f
+                        if f == "qvel" and dof_asleep[i]:
+                            # recorded: the velocity of a sleeping dof is outside mj_checkVel's scan (see clause B); a huge
+                            # finite one passes mj_checkAcc at the first RK4 stage and blows up in the later ones
+                            fkey = "qvel-sleeping-dof"
+                        fail("c30:nonfinite-after-step:" + fkey + ("" if narrow else ":other-mechanism"),
                              "after injecting %s into %s[%d] and calling mj_step ONCE, %s contains a non-finite value (integrator %s, variant %s, warnings %s)"
                              % (v, f, i, "/".join(nonfinite), integ, variant, [w1[w] for w in (W_QPOS, W_QVEL, W_QACC, W_CTRL)]), rp)
                         after2 = {g: res[("after2", ci, g)] for g in STATE_FIELDS}
